@@ -10,8 +10,26 @@ META = dict(
               "(L2) the storage-backed collections — vec.rs, DbMapData of map.rs, GraphDataStorage of graph.rs, the root record of db.rs — modelled line by line as programs over the storage "
               "interface and verified against the abstract record map for EVERY history including reloads (from_storage) and maintenance of the storage underneath, transferred to the storage model "
               "through C04_step_refines; + differential execution of the extracted collection model (run on the extracted storage model: exact record bytes and indexes) against the real collections "
-              "through the cfg(agdb_verif) wrappers of hook H4; + maintenance operations executed at random points of generated query histories with ordered full dumps before/after",
-    level_text="PARTIAL (the database level L3 is not a theorem). Machine-checked (coq/Props/C05.v, every theorem closed under the global context): "
+              "through the cfg(agdb_verif) wrappers of hook H4; (L3) the whole database file as a relation over the record map assembled from the L2 invariants, an executable loader proved to return the represented database, "
+              "run (extracted) on the raw records of real database files and compared with the reopened database; + maintenance operations executed at random points of generated query histories with ordered full dumps before/after",
+    level_text="PARTIAL (L3 is proved for RELOAD and MAINTENANCE of a stored database; that every DbImpl mutation keeps the database stored is not). Machine-checked (coq/Props/C05.v, every theorem closed under the global context): "
+               "L3, the whole database in the record store (theories/StoredDb*.v): stored_db g root d — the representation relation assembled from the L2 predicates: root record DbStorageIndex (version 1, six u64) -> "
+               "graph (index record + four DbVec<i64> = exactly the four arrays), aliases (two DbMapData tables holding k2v / v2k as multisets, keys distinct), indexes (DbVec of 24-byte entries: value index of the key "
+               "(C12) ++ index of a DbMapData<DbValue,DbId>, same order as the model, ids as a multiset), values (DbVec<StorageIndex>, one slot per element slot, 0 or a DbVec<DbKeyValue> holding exactly the property "
+               "list), all footprints pairwise distinct; it assumes no invariant of d. load_db — the executable composition of the L2 loaders in the order of DbImpl::try_new_with_storage, each component read to the end. "
+               "C05_db_reload (FULL): stored_db -> load_db succeeds and returns d up to sd_eqv (same graph arrays, same property lists in order, same alias lookups both ways, same index keys in order, ids per index "
+               "as multisets; implies C13's obs_eq and obs_eq_strong: C05_db_eqv_is_observational), undo stack empty; C05_db_reload_on_storage: the loader PROGRAM on the model of storage.rs returns what load_db computes; "
+               "C05_db_maintenance: optimize_storage / drop+open / backup+open of the storage model with no transaction open keep stored_db and load_db returns THE SAME database before and after (through C04's "
+               "step_refines, which carries the L1 theorem); C05_db_queries_after_reopen + C05_db_eqv_queries: every read-only query whose result does not list a hash table in iteration order (all selects with ids or "
+               "searches, select indexes / node_count, every search except algorithm Index; excluded exactly SelectAllAliases and the Index search) returns on the database loaded after the maintenance operation EXACTLY "
+               "the result it returns on d (ids, order, properties, aliases); C05_db_stored_depends_on_map_only; non-vacuity C05_db_sample: a database (2 nodes, 1 edge, alias, inline and out-of-line values, an index) "
+               "created by the collection programs on the storage model satisfies stored_db for the database three queries produce, load_db returns exactly it, also after optimize / reopen / backup and on the "
+               "memory-like storage. MISSING LINK (named in Props/C05.v, not proved): C05_db_operations_preserve_stored_db — that each DbImpl mutation (db.rs over graph.rs / multi_map.rs / db_key_value.rs / db_index.rs "
+               "on the storage) leaves a storage state representing the DbModel result, i.e. that stored_db holds after every history of queries; checked on every run by correspondence (c) below. Its SHAPE is carried out for one component: "
+               "C05_db_graph_histories_preserve_stored_db_partial — EVERY history of the GraphData interface (the interface graph.rs is written against) run on the graph of a stored database leaves a stored database whose graph arrays "
+               "are the plain arrays' result and whose aliases, indexes and values are unchanged, the change confined to the database's footprint (from C05_graph_history, the pairwise distinct footprints and C05_db_footprint_live); "
+               "C05_db_alias_lookups_by_probing — the link to C19: on stored alias tables satisfying the invariant C19 proves of every reachable table, for every hash function, the code's PROBING lookups (MapImpl::value) return exactly "
+               "the model's alias lookups (the loader itself scans slots and needs no probe chain). "
                "L1: C05_storage_maintenance_partial — on every reachable storage state backup+open, drop+open of a committed file and optimize_storage preserve the map index -> bytes of live records exactly; "
                "C05_clean_reopen_identity. "
                "L2, vectors (FULL): C05_vec_history — for EVERY history of push / replace / remove / swap / resize / reserve / shrink_to_fit / value / iteration / len on a storage-backed vector, interleaved at will "
@@ -26,11 +44,10 @@ META = dict(
                "C05_map_history_on_storage_{u64,string} on the model of storage.rs. "
                "L2, graph data (FULL for the GraphData interface): C05_graph_history — EVERY history of set / get of from, to, from_meta, to_meta, grow, shrink_to_fit, capacity on GraphDataStorage (index record + four "
                "DbVec<i64>), with reloads and maintenance, yields the observations of the four plain arrays (the arrays of Graph.v/C08); C05_graph_history_on_storage from GraphDataStorage::new. "
-               "L2, root record: C05_root_roundtrip_partial — DbStorageIndex stored at index 1 is what the next open reads (PARTIAL: the components are not assembled into one invariant of the whole database file). "
+               "L2, root record: C05_root_roundtrip_partial — DbStorageIndex stored at index 1 is what the next open reads (its own statement is about the record only; the assembly into one invariant of the whole database file is L3 above). "
                "Also pinned: C02_{vec,map,graph}_loads_partial (the loaders succeed and read back the content in every state satisfying the invariants, i.e. at every transaction boundary) and "
-               "C06_{vec,map,graph}_variants_agree (file-like and memory-like storage give the same observations for every collection history). "
-               "NOT proved: the composition L2 -> L3 (that DbImpl's query results are a function of these collections' contents only; DbIndexes = a vector of (value index, multi-map) pairs, DbKeyValues = a vector of "
-               "indexes of DbVec<DbKeyValue> — each component class is covered, the nesting is not assembled), the algorithms of multi_map.rs / graph.rs over the interfaces (C19 / C08 models), and the "
+               "C06_{vec,map,graph}_variants_agree (file-like and memory-like storage give the same observations for every collection history); at L3: C02_db_loads_partial (in every state satisfying stored_db the WHOLE database loads) and C06_db_variants_agree_partial (a file-like and a memory-like storage holding the same database load to databases equal up to sd_eqv). "
+               "NOT proved: the simulation of db.rs's mutations (the missing link above), the algorithms of multi_map.rs / graph.rs over the storage-backed interfaces (C19 / C08 prove them on the plain table / arrays), and the "
                "u64-overflow behaviour of vec.rs' own arithmetic (modelled in N; bounded by the record size which the storage keeps below 2^64). "
                "Checked on every run: (a) collection correspondence — generated histories (vectors of u64 / i64 / String / DbValue / DbKeyValue, DbMapData<u64,u64> and <String,u64>, GraphDataStorage; reload / optimize / reopen / backup+open "
                "at random points) on MemoryStorage, FileStorage and FileStorageMemoryMapped through hook H4; after EVERY step the observation, the handle (index, len, capacity) and EVERY live record of the storage with "
@@ -38,11 +55,14 @@ META = dict(
                "oracle on the implementation (reads agree; content read through a reloaded handle equals the content before), also for the whole MultiMapStorage<u64,u64>; skipped with a note when hook H4 "
                "(fixes/H4-dbvec-wrapper.diff) is not in the tree under test; (b) each of {drop+reopen, optimize_storage, shrink_to_fit, backup+open, copy, rename, reopen with another file-backed variant} applied at "
                "random points (and at the end) of generated query histories on DbFile, Db, DbAny(file), DbAny(mapped): full ORDERED dump and a battery of 12 searches identical before and after, the history continues "
-               "side by side with the in-memory database and the extracted database model. The *_guarded theorems state the L1 results for the recovery with the position check of apply_wal_record (model recover_g, fix 826414a): "
+               "side by side with the in-memory database and the extracted database model; (c) stored database: generated histories through the public API on a DbFile (transactions with injected failures, maintenance "
+               "inside the history); the closed file, the optimized file and a backup are read RAW with the storage layer only (VStorage<FileStorage>: index -> bytes of every live record) and given to the extracted load_db; "
+               "the full ordered dump of the loaded model database must equal, as a line, the dump of the same file reopened as a real database (class stored-db-mismatch), which must equal the dump before the drop "
+               "(stored-reopen-differs). The *_guarded theorems state the L1 results for the recovery with the position check of apply_wal_record (model recover_g, fix 826414a): "
                "on logs the storage wrote the check never fires (C01_guarded_recovery_agrees).",
     design_ref="DESIGN.md §5 C05",
     level_note="Trusted: Coq kernel, extraction, OCaml driver, Rust harness (its generators and shadow structures), hook H4 (delegating wrappers, add-only, cfg(agdb_verif)). The storage model is tied to storage.rs by "
-               "the C04 correspondence, the collection model to vec.rs / map.rs / graph.rs by the exact byte-level correspondence of this check. DbMemory 'reopen' = backup to a file + open.",
+               "the C04 correspondence, the collection model to vec.rs / map.rs / graph.rs by the exact byte-level correspondence of this check, the loader load_db to DbImpl::new + complete reads by correspondence (c) on real files. DbMemory 'reopen' = backup to a file + open.",
 )
 
 WRAPPER = "vdbvec!(VDbVecU64"         # hook H4 (fixes/H4-dbvec-wrapper.diff) in agdb/src/verif.rs
@@ -87,6 +107,43 @@ def run_coll(ctx):
     return dict(steps=ev, lines=len(cases), disagreements=dis, failures=failures, dist=dist, nontrivial=nt, samples=samples, histories=dist.get("histories", 0))
 
 
+def vstorage_present():
+    p = os.path.join(vlib.REPO, "agdb", "src", "verif.rs")
+    return os.path.exists(p) and "pub struct VStorage" in open(p, errors="replace").read()
+
+
+def run_stored(ctx):
+    """database level (L3): the extracted load_db on the raw records of REAL database files vs the reopened real database"""
+    exe, dlog = vlib.build_driver()
+    if exe is None:
+        raise RuntimeError("driver build failed: " + dlog)
+    tdir, blog = vlib.cargo_build("hx_core", "release", features=["h4_dbvec"] if wrapper_present() else None)
+    if tdir is None:
+        raise RuntimeError("harness build failed: " + blog)
+    w = os.path.join(ctx.workdir, "stored")
+    os.makedirs(w, exist_ok=True)
+    n, steps = (48, 40) if ctx.tier == "quick" else (1500, 60)
+    rc, out = vlib.sh([os.path.join(tdir, "hx_core"), "stored", "--seed", str(ctx.seed + 505), "--n", str(n), "--steps", str(steps), "--out", w], timeout=6000)
+    if rc != 0:
+        raise RuntimeError("stored harness failed: " + out[-2000:])
+    rc, err = run_driver(exe, os.path.join(w, "cases.txt"), os.path.join(w, "model.txt"), timeout=6000)
+    cases, model, impl, hist = (read_lines(os.path.join(w, f)) for f in ("cases.txt", "model.txt", "impl.txt", "hist.txt"))
+    dis = []
+    for i, c in enumerate(cases):
+        m = model[i] if i < len(model) else "<missing>"
+        x = impl[i] if i < len(impl) else "<missing>"
+        if m != x and len(dis) < 8:
+            dis.append(dict(what="stored database, case %d: load_db on the raw records of the file differs from the reopened database (%s)"
+                                 % (i, hist[i][:4000] if i < len(hist) else ""),
+                            case=c[:3000], model=m[:6000], impl=x[:6000], history=hist[i][:6000] if i < len(hist) else ""))
+    failures = [dict(cls=l.split(" ")[0], what=l[:6000]) for l in read_lines(os.path.join(w, "oracle.txt"))]
+    # a loader disagreement on a real file is a failure of the property's proof chain with a concrete input
+    failures += [dict(cls="stored-db-mismatch", what=(d["what"] + " model=" + d["model"] + " impl=" + d["impl"])[:6000]) for d in dis]
+    dist, ev, nt, samples = merge_stats([os.path.join(w, "stats.json")])
+    return dict(cases=len(cases), disagreements=dis, failures=failures, dist=dist, nontrivial=nt, samples=samples,
+                histories=dist.get("histories", 0), records=dist.get("records", 0))
+
+
 def run(ctx):
     notes = []
     co = None
@@ -96,6 +153,11 @@ def run(ctx):
         notes.append("collection-layer correspondence (Collections.v against DbVec / DbMapData / GraphDataStorage, exact record bytes) SKIPPED: hook H4 "
                      "(agdb::verif::VDbVecU64 & co., fixes/H4-dbvec-wrapper.diff) is not in %s; only the part that needs no hook ran "
                      "(maintenance operations on generated query histories through the public Db API)" % vlib.REPO)
+    sto = None
+    if vstorage_present():
+        sto = run_stored(ctx)
+    else:
+        notes.append("database-level correspondence (extracted load_db on the raw records of real files) SKIPPED: agdb::verif::VStorage is not in %s" % vlib.REPO)
     n, steps = (50, 30) if ctx.tier == "quick" else (1200, 60)
     r = run_db(ctx, "all", n, steps, variants="file,mapped,any_file,any_mapped", maintenance=True)
     # index-heavy histories as well: several indexes created and removed in varying order before the maintenance operation
@@ -127,6 +189,21 @@ def run(ctx):
                 "oracle only); non-trivial = history with a reload, a maintenance operation and growth/removal. Database level: " % (co["histories"], co["steps"], co["lines"])) + rule
         notes.append("collection correspondence: %d steps on %d histories, %d lines compared exactly, %d disagreements, %d oracle failures"
                      % (co["steps"], co["histories"], co["lines"], len(co["disagreements"]), len(co["failures"])))
+    if sto is not None:
+        failures = sto["failures"] + failures
+        disagreements = sto["disagreements"] + disagreements
+        evaluations += sto["cases"]
+        nontrivial += sto["nontrivial"]
+        samples = sto["samples"][:2] + samples
+        dist.update({"stored:" + k: v for k, v in sto["dist"].items()})
+        rule = ("stored database (L3): %d generated histories of mutating queries and transactions (some with an injected failure; optimize_storage / shrink_to_fit / drop+reopen at random "
+                "points) through the public API on a DbFile; for the closed file, the file after optimize_storage and a backup of it: every live record read RAW through the storage layer only "
+                "(VStorage<FileStorage>, %d records in all) is given to the extracted load_db with root index 1, and the full ORDERED dump of the model database it returns (graph elements, "
+                "adjacency, degree counters, property lists in stored order, aliases, indexes with ids per value) must equal, as a line, the dump of the same file reopened as a database "
+                "(%d cases); direct oracle: the reopened database dumps like the database before it was dropped; non-trivial = the final database has nodes, edges, aliases and indexes. "
+                % (sto["histories"], sto["records"], sto["cases"])) + rule
+        notes.append("stored-database correspondence: %d files loaded by the extracted load_db, %d disagreements, %d oracle failures"
+                     % (sto["cases"], len(sto["disagreements"]), len([f for f in sto["failures"] if f["cls"] != "stored-db-mismatch"])))
     return dict(
         evaluations=evaluations, distinct_nontrivial=nontrivial, samples=samples, dist=dist, rule=rule,
         failures=failures, disagreements=disagreements,
